@@ -45,6 +45,7 @@ type C13Emb struct {
 	BudgetMS int      `json:"budget_ms"`       // mid: deadline = start + budget
 	Keys     int      `json:"keys,omitempty"`  // memcap: number of keys (> 1000, the scan checks memory every 1000 rows)
 	Group    bool     `json:"group,omitempty"` // memcap: grouped query instead of SELECT *
+	Shape    string   `json:"shape,omitempty"` // memcap: "" | insub (big IN-subquery) | insub2 (big IN-subquery followed by a small one)
 	// Companion: a second query on the same table (no deadline) is issued at the
 	// same time, so that both are served by one coalesced scan
 	Companion string `json:"companion,omitempty"` // "" | star | subset
@@ -59,6 +60,7 @@ func genC13Emb(t *rapid.T) C13Emb {
 		c.Keys = rapid.IntRange(1001, 2600).Draw(t, "keys")
 		c.Group = rapid.Bool().Draw(t, "group")
 		c.Mem = rapid.Bool().Draw(t, "mem")
+		c.Shape = rapid.SampledFrom([]string{"", "", "insub", "insub2", "insub2r"}).Draw(t, "shape")
 		return c
 	case 1, 2, 3, 4:
 		c.Fault = "past"
@@ -177,11 +179,27 @@ func runC13Emb(c *C13Emb) (removed bool, err error) {
 // its allowance, a scan of more than 1000 rows is stopped with ErrOutOfMemory.
 func runC13MemCap(c *C13Emb) (bool, error) {
 	sc := (&C18Stream{}).schema()
+	// a second, small table on the same stream for the subquery shapes
+	small := sc.Tables[0]
+	small.Name = "tb"
+	lit := h.StrV("k000001")
+	small.Where = &h.Pred{Op: "=", Dim: "dk", Lit: &lit}
+	sc.Tables = append(sc.Tables, small)
 	dir := h.ScratchDir("c13m")
 	defer removeAll(dir)
 	sql := "SELECT * FROM ta"
 	if c.Group {
 		sql = "SELECT fa, fb FROM ta GROUP BY dk, period(1h)"
+	}
+	// the scan that exceeds the cap can also be the one of an IN-subquery; the
+	// outer query then scans a small table only
+	switch c.Shape {
+	case "insub":
+		sql = "SELECT * FROM tb WHERE dk IN (SELECT dk FROM ta)"
+	case "insub2":
+		sql = "SELECT * FROM tb WHERE dk IN (SELECT dk FROM ta) AND dk IN (SELECT dk FROM tb)"
+	case "insub2r":
+		sql = "SELECT * FROM tb WHERE dk IN (SELECT dk FROM tb) AND dk IN (SELECT dk FROM ta)"
 	}
 	// load and flush without a cap (under a cap that is always exceeded every
 	// insert forces flushes, which is not what this case is about)
@@ -224,7 +242,7 @@ func runC13MemCap(c *C13Emb) (bool, error) {
 		return true, nil // told
 	}
 	if d := incomplete(nil, truth, got); d != "" {
-		return true, fmt.Errorf("with a memory cap that is always exceeded, a scan over %d keys (memstore=%v, grouped=%v) returned err == nil but not the rows of the uncapped run:\n%s", c.Keys, c.Mem, c.Group, d)
+		return true, fmt.Errorf("with a memory cap that is always exceeded, %s over %d keys (memstore=%v) returned err == nil but not the rows of the uncapped run:\n%s", sql, c.Keys, c.Mem, d)
 	}
 	return false, nil
 }
@@ -269,7 +287,7 @@ func genC13Cluster(t *rapid.T, webMode bool, excluded *int) C13Cluster {
 		c.C.N = 1 + c.C.N%4
 	}
 	c.C.Queries = c.C.Queries[:1]
-	kinds := []string{"ok", "ok", "slow", "missing", "err-first", "err-after", "block"}
+	kinds := []string{"ok", "ok", "slow", "missing", "err-first", "err-after", "block", "err-once"}
 	for i := 0; i < c.C.N; i++ {
 		c.Faults = append(c.Faults, rapid.SampledFrom(kinds).Draw(t, fmt.Sprintf("fault%d", i)))
 	}
@@ -279,22 +297,69 @@ func genC13Cluster(t *rapid.T, webMode bool, excluded *int) C13Cluster {
 		c.CtxMS = rapid.SampledFrom([]int{200, 400}).Draw(t, "ctxms")
 	}
 	if webMode {
-		if rapid.IntRange(0, 2).Draw(t, "cap") == 0 {
+		if rapid.Bool().Draw(t, "cap") {
 			c.MaxBytes = rapid.IntRange(1, 1500).Draw(t, "maxbytes")
 		}
 		c.Again = rapid.Bool().Draw(t, "again")
+		if c.MaxBytes > 0 && rapid.Bool().Draw(t, "bigresult") {
+			// a result of a hundred rows or more and a limit of a few kB: the
+			// handler's running estimate stops the scan long before the compressed
+			// body of what was collected so far would exceed the limit
+			cfg := c11Cfg()
+			extra := rapid.IntRange(60, 160).Draw(t, "extra")
+			for i := 0; i < extra; i++ {
+				c.C.Data.Points = append(c.C.Data.Points, h.GenPoint(t, cfg, &c.C.Data.Schema, cfg.MaxPeriods, fmt.Sprintf("x%d", i)))
+			}
+			c.MaxBytes = rapid.IntRange(800, 5000).Draw(t, "maxbytes2")
+		}
+		if rapid.IntRange(0, 3).Draw(t, "sortedbig") == 0 {
+			// dedicated shape: many rows, a sort between scan and consumer, a limit
+			// that the estimate reaches after a few dozen rows
+			cfg := c11Cfg()
+			if len(c.C.Data.Points) < 60 {
+				extra := rapid.IntRange(60, 160).Draw(t, "extra2")
+				for i := 0; i < extra; i++ {
+					c.C.Data.Points = append(c.C.Data.Points, h.GenPoint(t, cfg, &c.C.Data.Schema, cfg.MaxPeriods, fmt.Sprintf("y%d", i)))
+				}
+			}
+			c.MaxBytes = rapid.IntRange(800, 5000).Draw(t, "maxbytes3")
+			key := rapid.SampledFrom(append([]string{"_time", "_points"}, tableFieldNames(&c.C.Data.Schema, "ta")...)).Draw(t, "sortkey")
+			c.C.Queries[0] = &h.Query{Fields: []h.QField{{Star: true}}, From: "ta", OrderBy: []h.OrderKey{{Field: key, Desc: rapid.Bool().Draw(t, "sortdesc")}}}
+			if rapid.Bool().Draw(t, "sortlimit") {
+				c.C.Queries[0].Limit = rapid.IntRange(50, 200).Draw(t, "sortlimitn")
+			}
+		}
+		// the size limit is raised by the consumer of the rows, above every
+		// operator of the plan: put sorting / limiting operators in between
+		q := c.C.Queries[0]
+		if len(q.OrderBy) == 0 && rapid.Bool().Draw(t, "weborder") {
+			cands := []string{"_time"}
+			for _, f := range q.Fields {
+				if !f.Star && f.Name != "" {
+					cands = append(cands, f.Name)
+				}
+			}
+			q.OrderBy = []h.OrderKey{{Field: rapid.SampledFrom(cands).Draw(t, "weborderf"), Desc: rapid.Bool().Draw(t, "weborderd")}}
+		}
 	}
 	return c
 }
 
 // faultyHandler wraps a partition's handler with the injected behaviour.
 func faultyHandler(kind string, afterRow int, hold time.Duration, inner planner.QueryClusterFN) planner.QueryClusterFN {
+	calls := int64(0)
 	return func(ctx context.Context, sqlString string, isSubQuery bool, subQueryResults [][]interface{}, unflat bool, onFields core.OnFields, onRow core.OnRow, onFlatRow core.OnFlatRow) (interface{}, error) {
 		switch kind {
 		case "slow":
 			time.Sleep(15 * time.Millisecond)
 		case "err-first":
 			return nil, errPartition
+		case "err-once":
+			// fails the first cluster query it is asked to answer (for a query with
+			// an IN-subquery that is the subquery), answers the following ones
+			if atomic.AddInt64(&calls, 1) == 1 {
+				return nil, errPartition
+			}
 		case "block":
 			select {
 			case <-ctx.Done():
@@ -534,6 +599,11 @@ func runC13Cluster(c *C13Cluster) (removed bool, labels []string, err error) {
 			listed[p] = true
 		}
 		for i, kind := range c.Faults {
+			if kind == "err-once" && (q.WhereIn != nil || q.FromSub != nil) {
+				// the failure hit a subquery's own cluster query; what matters is
+				// whether the final rows are complete (checked below)
+				continue
+			}
 			if isFaulty(kind) && !listed[i] {
 				// tolerated only when the leader stopped early because a LIMIT was satisfied
 				if q.HasLimit() && incomplete(q, truth, got) == "" {
